@@ -58,9 +58,11 @@ Reading adopted for "one entry per completed instrumented operation" when the or
   only requires exactly one matching entry for each COMPLETED top-level instrumented operation).
   Program order for nested calls: record-first wrappers give call order, __init__ gives return order
   (a Node's set_attribute entries precede its init entry) — that is what body_entries defines.
-Tie (measured on the unchanged tree, quick tier, seed 0: 301 scenarios x 3 runs, ~7500 operations,
-  all 43 patched slots exercised with returning calls, 35 of them also with raising calls; nesting
-  depth 0..4; ~2/3 of the scenarios leave at least one journal by exception):
+Tie (measured on the unchanged tree, quick tier, seed 0: 301 scenarios x 3 runs, ~7800 operations,
+  ~35 s; all 43 patched slots exercised with returning calls, 25 of them also with raising calls (the
+  others — plain setters, TensorBase/Value/Attr/Model/Function __init__, clear — have no failing path in
+  the alphabet); nesting depth 0..4; ~60% of the scenarios end with an exception escaping at least one
+  journal.  Thorough: 9001 scenarios, ~10 min; measured with 4501: 285 s, 110k operations, 163k entries):
   (i)   plain vs journaled: per-operation result/exception type, digest of a canonical IR snapshot
         (public accessors) after every operation, final snapshot, escaping exception;
         LazyTensor evaluation counters are part of the snapshot (repr in details must not load).
